@@ -36,6 +36,7 @@ type State struct {
 	loopPre map[int]*State // state at loop entry (before havoc), for pre()
 	allocs []Term // references allocated in this activation
 	boxed  map[string]Value // interface term -> the value it was made from
+	private map[string]bool // references allocated here that never escaped (survive havoc of unknown calls)
 	heapTop map[string]Term // allocation top when the current version of a heap array was created
 	entryTop Term
 	epochTop Term
@@ -44,6 +45,10 @@ type State struct {
 
 func (s *State) clone() *State {
 	n := &State{pc: s.pc, top: s.top, dead: s.dead, entryTop: s.entryTop, epochTop: s.epochTop}
+	n.private = make(map[string]bool, len(s.private))
+	for k, v := range s.private {
+		n.private[k] = v
+	}
 	n.heapTop = make(map[string]Term, len(s.heapTop))
 	for k, v := range s.heapTop {
 		n.heapTop[k] = v
@@ -241,11 +246,26 @@ func (x *Exec) havocAllHeap(st *State) {
 		names = append(names, n)
 	}
 	sort.Strings(names)
+	priv := sortedKeys(st.private)
 	for _, n := range names {
+		old, had := st.heap[n]
 		x.heapHavoc(st, n)
+		if had {
+			for _, r := range priv {
+				rt := Term{r, sInt}
+				st.assume(mkEq(mkSelect(st.heap[n], rt), mkSelect(old, rt)))
+			}
+		}
 	}
 	for _, n := range sortedKeys(x.mapInfo) {
+		old, had := st.heap[n]
 		st.heap[n] = x.fresh(st, n, x.mapInfo[n])
+		if had {
+			for _, r := range priv {
+				rt := Term{r, sInt}
+				st.assume(mkEq(mkSelect(st.heap[n], rt), mkSelect(old, rt)))
+			}
+		}
 	}
 	st.heap["!epoch"] = Term{fmt.Sprintf("%d", x.names.n), sInt}
 	nt := x.fresh(st, "top", sInt)
@@ -438,4 +458,16 @@ func (x *Exec) ptrValue(st *State, t types.Type, p *Ptr) Value {
 		st.assume(mkCmp(">", term, tZero)) // addresses of variables, fields and elements are never nil
 	}
 	return Value{T: t, L: []Term{term}, P: p}
+}
+
+// escape marks references occurring in v as visible to other code.
+func (st *State) escape(v Value) {
+	if len(st.private) == 0 {
+		return
+	}
+	for _, l := range v.L {
+		if st.private[l.S] {
+			delete(st.private, l.S)
+		}
+	}
 }
